@@ -45,6 +45,25 @@ let run cmd (a : string array) : string =
       (match match_to (thr_of (zl a.(4))) ad (zl a.(5)) with
        | None -> "None"
        | Some m -> String.concat " " (List.map sz [m.astart; m.astop; m.rstart; m.rstop; m.mscore; m.merrors; m.mside]))
+  | "matchtopf" ->
+      let ad = adapter_of a in
+      (match match_to_prefiltered (thr_of (zl a.(4))) ad (zl a.(5)) with
+       | None -> "None"
+       | Some m -> String.concat " " (List.map sz [m.astart; m.astop; m.rstart; m.rstop; m.mscore; m.merrors; m.mside]))
+  | "prefilter" -> let ad = adapter_of a in sb (prefilter_passes (thr_of (zl a.(4))) ad (zl a.(5)))
+  (* kmertable seq|min_overlap|thr|back front internal indels  -> sorted? no: printed in model order, canonicalised by the harness *)
+  | "kmertable" ->
+      let f = Array.of_list (ints a.(3)) in
+      let t = positions_and_kmers (thr_of (zl a.(2))) (zl a.(0)) (z1 a.(1)) (f.(0) <> 0) (f.(1) <> 0) (f.(2) <> 0) (f.(3) <> 0) in
+      String.concat ";" (List.map (fun ((k, st), sp) -> szl k ^ "," ^ sz st ^ "," ^ (match sp with None -> "N" | Some s -> sz s)) t)
+  (* kpresent wref wq|table as in kmertable output|seq *)
+  | "kpresent" ->
+      let f = Array.of_list (ints a.(0)) in
+      let parse_t s = match String.split_on_char ',' s with
+        | [k; st; sp] -> ((zl k, z1 st), (if String.trim sp = "N" then None else Some (z1 sp)))
+        | _ -> failwith "triple" in
+      let tab = if String.trim a.(1) = "" then [] else List.map parse_t (String.split_on_char ';' a.(1)) in
+      sb (kmers_present (f.(0) <> 0) (f.(1) <> 0) tab (zl a.(2)))
   | _ -> failwith ("unknown command " ^ cmd)
 
 let () =
